@@ -31,6 +31,9 @@ type verifWFree struct {
 	pageReqs  int
 	started   chan struct{} // closed when the first count request has been answered
 	first     bool
+	// how far the stream has been paged, and the count requests answered since the whole stream had been paged
+	pagedTo         int
+	countsAfterFull int
 }
 
 type verifWRecv struct {
@@ -181,6 +184,12 @@ func verifWRunScenario(id int, seed uint64, out *verifWOut) map[string]interface
 		exps[e.uid] = x
 	}
 	deadline := time.Now().Add(25 * time.Second)
+	offw := &verifWOffWatch{must: map[int]int64{}}
+	for u, x := range exps {
+		if x.must {
+			offw.must[u] = x.thresh
+		}
+	}
 	for started {
 		rmu.Lock()
 		got := map[int]bool{}
@@ -200,6 +209,13 @@ func verifWRunScenario(id int, seed uint64, out *verifWOut) map[string]interface
 			break
 		}
 		if time.Now().After(deadline) {
+			break
+		}
+		emu.Lock()
+		restarted := len(runErrs) > 0 // (Run returned - a request failed inside the client - and was restarted: what it had pending is gone)
+		emu.Unlock()
+		if msg := offw.sample(h, got, raiseAt); msg != "" && !restarted {
+			flag("C09", "poller-off-with-events-pending", fmt.Sprintf("free run %d (mainnet=%v): %s", id, h.mainnet, msg))
 			break
 		}
 		time.Sleep(20 * time.Millisecond)
